@@ -15,10 +15,7 @@ Theorem C12_discovered_mapping :
   forall labels vals x k,
     nth_error (groups_of true None labels) k = Some x ->
     vals_of (Z.of_nat k) (map (code_of (groups_of true None labels)) labels) vals = labelled x labels vals.
-Proof.
-  intros labels vals x k H. apply (C16Proofs.mapping_invariant true None labels vals x k); [|exact H].
-  intros ex Hex. discriminate.
-Qed.
+Proof. exact discovered_mapping_sorted. Qed.
 
 (* the grouped combine used for unknown labels yields, for every label that occurs, the same value as
    the simple combine / the eager pipeline (any chunking, any tree) *)
